@@ -248,6 +248,14 @@ func coldStartBurst() {
 		"$X", "$X $X", "${@#p}", "${@%x}", "\"${@##p?}\"", "${*%%?x}", "$-", "\"$-\" $#"}
 	// one alias table shared (read-only, as far as the callers are concerned) by all callers; values with two trailing blanks
 	sharedEnv := &interp.ExecEnv{Aliases: map[string]string{"ll": "ls -l  ", "l2": "ll \t ", "b": "c  "}}
+	// ~name for every login name of the machine: each name is new to the process once, at a different moment for each caller
+	if b, err := os.ReadFile("/etc/passwd"); err == nil {
+		for _, l := range strings.Split(string(b), "\n") {
+			if i := strings.IndexByte(l, ':'); i > 0 && !strings.ContainsAny(l[:i], " $`\\\"'") {
+				wordSrc = append(wordSrc, "~"+l[:i])
+			}
+		}
+	}
 	const G = 8
 	one := func(g int) []string {
 		var out []string
@@ -255,6 +263,13 @@ func coldStartBurst() {
 		for _, w := range wordSrc {
 			if cmd, _, err := parser.ParseCommand("w", ": "+w); err == nil {
 				words = append(words, cmd.(*ast.Cmd).Expr.(*ast.SimpleCmd).Args[1])
+			}
+		}
+		tenv := interp.NewExecEnv("sim")
+		for i := range words {
+			if w := wordSrc[(i+g*5)%len(words)]; strings.HasPrefix(w, "~") {
+				f, err := tenv.Expand(words[(i+g*5)%len(words)], 0)
+				out = append(out, fmt.Sprintf("%q %v", f, err))
 			}
 		}
 		for i := range progs {
